@@ -366,6 +366,12 @@ class Recorder(object):
                     h.update({K(e['k']): V(e['v']), K(e['k2']): V(e['v2'])})
                 elif op == 'updatekw':
                     h.update({}, **{K(e['k']): V(e['v']), K(e['k2']): V(e['v2'])})
+                elif op == 'update0':          # the three other ways a dict can be updated
+                    h.update()
+                elif op == 'updatekwonly':
+                    h.update(**{K(e['k']): V(e['v']), K(e['k2']): V(e['v2'])})
+                elif op == 'updateitems':
+                    h.update([(K(e['k']), V(e['v'])), (K(e['k2']), V(e['v2']))])
                 elif op == 'updatebad':
                     h.update({K(e['k']): V(e['v']), K(e['k2']): V(BAD)})
                 elif op == 'clear':
